@@ -16,6 +16,8 @@ func IsTruthy(val any) bool {
 		return true
 	case int, int64, float64:
 		return fmt.Sprintf("%v", b) != "0"
+	case int8, int16, int32, uint, uint8, uint16, uint32, uint64, uintptr, float32:
+		return fmt.Sprintf("%v", b) != "0"
 	case nil:
 		return false
 	default:
